@@ -34,6 +34,13 @@ Round 8 (payload decoders of structures/*.py):
     expressions in the operands is `if A: (if B: …)`; a variable first assigned inside a `for` body and never used
     outside the loop is local to one iteration;
   * TRUSTED primitive: `<device>.get_nowait(name, default)` (contract in Model/PyPreludeStruct.lean).
+Round 8, continued (sensor sections):
+  * `try: S  finally: F` where S assigns nothing and F has no return / continue / break / raise: the outcome of S (fell
+    through / returned / raised) is a value `PyM (Option V)` computed BEFORE F; F runs; then the outcome takes effect;
+  * TRUSTED primitive `X.from_bytes(data, offset)` for a struct-backed wire type X of helpers/data_types.py
+    (`Py.wire_from_bytes "X" fmt`): the format is folded from `class X(BuiltInDataType[...]): _struct = struct.Struct(fmt)`
+    in the SOURCE (a class body holding anything else is rejected); contract = Props/TieTypes.lean (class translator);
+  * `math.isnan(x)`; a wire float is `V.float width bits` (only `isnan` and `> 0` are defined on it).
 Ignored (documented, trusted): decorators (`@timeout`, `@cache`), docstrings, type annotations,
 `_LOGGER.*(...)` statements, the arguments (messages) of raised exceptions, `from e` chaining.
 """
